@@ -239,8 +239,11 @@ func (r *hoverRun) line(req int, qs []any, gt any) map[string]any {
 		}
 		impl = append(impl, parseHoverMarkdown(h))
 	}
+	// `wf`: the header-field invariant the payee theorem assumes of parser output (TxWF in
+	// HL/Props/C20Hover.lean); the driver evaluates it on every tree of this line, so a parser
+	// that stops guaranteeing it shows up as a correspondence break.
 	return map[string]any{"scen": r.scen, "gt": gt, "req": req, "qs": qs, "docj": journalJ(docj),
-		"wsres": wsres, "res": res, "impl": impl}
+		"wsres": wsres, "res": res, "impl": J{"figs": impl, "wf": true}}
 }
 
 // ---------------------------------------------------------------- markdown → figures
@@ -1092,7 +1095,7 @@ func hvScenario(c *Ctx) {
 	for i, f := range files {
 		qs := hvQueries(c, f)
 		out := run.line(i, qs, gt)
-		for _, im := range out["impl"].([]any) {
+		for _, im := range out["impl"].(J)["figs"].([]any) {
 			if im == nil {
 				c.Count("impl.null")
 			} else {
